@@ -177,6 +177,9 @@ def corpus(rng, b=0):
         smi = [rng.choice(AUG_SMILES), rng.choice(SMILES_CONC)]
     else:
         smi = rng.sample(SMILES_CONC, 6) + [rng.choice(AUG_SMILES)]
+    data = gen.dataset_smiles()
+    if data:
+        smi += rng.sample(data, 2 if theme != "mixed" else 5)
     for _ in range(8 if theme == "molgen" else 3):
         K = [gen.DEFAULT]
         m = stubs.gen_mol(rng, K, rng.choice((6, 10, 14))) if rng.random() < 0.6 else stubs.gen_aromatic_mol(rng, K)
